@@ -169,7 +169,9 @@ def main_wrapper(pid, fn):
     except MachineryFailure as e:
         print("MACHINERY-FAILURE %s: %s" % (pid, e))
         rc = 2
-    except Exception:
+    except KeyboardInterrupt:
+        raise
+    except BaseException:  # SystemExit raised inside the tool under test must not become this check's exit status
         traceback.print_exc(file=sys.stdout)
         print("MACHINERY-FAILURE %s: harness exception" % pid)
         rc = 2
